@@ -255,7 +255,7 @@ def run_case(case):
     if fam == 'source_fault':
         d = lab.df()
         n = 150
-        for at in (0, 50, 99, 100, 101, 149, 'end'):
+        for at in (0, 50, 99, 100, 101, 149, 'end', '__iter__'):
             for via in ('process', 'results'):
                 cls = rng.choice(faultlab.CLASSES)
                 if cls == 'StopIteration':
@@ -272,8 +272,17 @@ def run_case(case):
                     if at == 'end':
                         raise injected
 
-                def make_steps(tag_, second=second):
-                    st = ([[{'q': 1}, {'q': 2}]] if second else []) + [gen(), d.add_field('z', 'integer', 1),
+                class Table:
+                    # a class-based iterable that opens its file / cursor in __iter__ - and fails there
+                    def __init__(self, exc):
+                        self.exc = exc
+
+                    def __iter__(self):
+                        raise self.exc
+
+                def make_steps(tag_, second=second, at=at, injected=injected):
+                    src_ = Table(injected) if at == '__iter__' else gen()
+                    st = ([[{'q': 1}, {'q': 2}]] if second else []) + [src_, d.add_field('z', 'integer', 1),
                                                                      d.dump_to_path('SD_' + tag_),
                                                                      d.checkpoint('SC', checkpoint_path='scp_' + tag_)]
                     return st, [('dump', 'SD_' + tag_), ('checkpoint', 'scp_%s/SC/stream.ndjson' % tag_)]
@@ -282,6 +291,44 @@ def run_case(case):
                 cov['fault_sites']['iterable_source/row_%s' % at] = 1
                 judge(verdict, detail, committed, 'iterable source raising at row %s (%s rows, via %s)' % (at, n, via),
                       cls, 'source_iterable:%s' % ('sample' if isinstance(at, int) and at < 100 else 'after_sample'))
+        # a dumper that WRITES only some resources (force_format=False, unknown extension = passed on unwritten) between a
+        # failing source and a later step that swallows the stream error
+        for via in ('process', 'results'):
+            for unknown_ext in (True, False):
+                cls = rng.choice([c for c in faultlab.CLASSES if c != 'StopIteration'])
+                tag = 'ff%s_%s_%s' % (case['pos'], via, unknown_ext)
+                injected = faultlab.make_exception(cls, tag)
+
+                def mk_corrupt(injected=injected):
+                    def corrupt(rows):
+                        # a step (not the source itself) failing in the middle of the first resource
+                        for i, row in enumerate(rows):
+                            if rows.res.name == 'first' and i == 5:
+                                raise injected
+                            yield row
+                    return corrupt
+                corrupt = mk_corrupt()
+
+                def tolerant(rows):
+                    try:
+                        yield from rows
+                    except Exception:
+                        pass
+
+                def make_steps(tag_, unknown_ext=unknown_ext, corrupt=corrupt):
+                    st = [[{'id': i, 's': 'x%d' % i} for i in range(10)],
+                          d.update_resource(-1, name='first', path='data/first.' + ('xyz' if unknown_ext else 'csv')),
+                          [{'q': 1}, {'q': 2}], d.update_resource(-1, name='second', path='data/second.csv'),
+                          corrupt, d.dump_to_path('FD_' + tag_, force_format=False), tolerant]
+                    return st, [('dump', 'FD_' + tag_)]
+                counters['faults_armed'] += 1
+                verdict, detail, committed = run_point('SRC', tag, make_steps, injected, via)
+                cov['fault_sites']['rows_step/then_dump_force_format_false%s/then_swallowing_step'
+                                   % ('_unwritten_resource' if unknown_ext else '')] = 1
+                judge(verdict, detail, committed, 'a step raising at row 5, dump_to_path(force_format=False) with the '
+                      'failing resource %s, then a step that swallows the stream error (via %s)'
+                      % ('passed on unwritten (unknown extension)' if unknown_ext else 'written', via),
+                      cls, 'source_iterable:swallowed_after_dump')
         # the source is load((descriptor, resources_iterator)) and the resources iterator fails when it is asked for the
         # resource after the last one (e.g. the tail of an inner flow chained through datastream())
         for via in ('process', 'results'):
